@@ -738,8 +738,14 @@ func c04Judge(r *core.Run, ds *declSet, si *setInfo, j *c04Job, defs []vdef, vte
 				cells.add("cell_by_user/" + shape(d.Name) + " mentions " + shape(m.Name) + " × " + kind)
 				if m.Name == d.Name {
 					if d.IsRec {
-						violate("self-call-through-global",
-							fmt.Sprintf("Definition %s mentions itself as the unquoted identifier %s instead of its rec: binder \"%s\"", d.Name, d.Name, d.Name),
+						// the signature names the form of the self reference in the Go source (kind of declaration, generic or not,
+						// call or function / method value), so that one recorded form does not cover the others
+						form := userKind
+						if us, ok := si.expected[d.Name]; ok {
+							form = selfRefForm(p.Units[us[0]])
+						}
+						violate("self-call-through-global:"+form,
+							fmt.Sprintf("Definition %s mentions itself as the unquoted identifier %s instead of its rec: binder \"%s\" (self reference in the Go source: %s)", d.Name, d.Name, d.Name, form),
 							map[string]interface{}{"definition": d.Name})
 					} else {
 						violate("self-mention-in-"+userKind,
